@@ -166,8 +166,9 @@ META_VALUES = {
             # values a serialiser may be tempted to "normalise"
             {'t': 'list', 'v': [' padded tag ', 'g2']},
             {'t': 'list', 'v': [1, 'Mixed Case']}],
-    'text': ['lbl', 'some text', 'T{1}', ' padded ', 'tab\there', 'v\x0bt'],
-    'label': ['L1', 'a label', ' Padded Label ', 'rs\x1esep'],
+    'text': ['lbl', 'some text', 'T{1}', ' padded ', 'tab\there', 'v\x0bt',
+             'Source #3 (cal)'],
+    'label': ['L1', 'a label', ' Padded Label ', 'rs\x1esep', 'a # b'],
     'name': ['n1', 'n2'],
     'comment': ['c1', 'a comment'],
     'component': [1, 2, 7],
